@@ -11,7 +11,7 @@ fn members(kind: ArgKind, tier: Tier) -> Vec<String> {
     let mut v: Vec<String> = vec![];
     match kind {
         ArgKind::Str => {
-            for s in ["x", "a.b", "'a b'", "\"a b\"", "-print", "!", ",", "é", "a\\b", "*.[ch]", "'a\"b'", "\"it's\"", "-o", "007"] {
+            for s in ["x", "a.b", "'a b'", "\"a b\"", "-print", "!", ",", "é", "a\\b", "*.[ch]", "'a\"b'", "\"it's\"", "-o", "007", "a,b", "core,", ",x", "a!b", "x=y", "{}", "+5", "-5"] {
                 v.push(s.into());
             }
         }
@@ -174,6 +174,22 @@ fn gen(tier: Tier) -> Vec<Case> {
         push(format!("{} {}", &kw.word[1..], firsts.join(" ")), kw.word, "dashless-keyword");
         push(format!("-{} {}", kw.word, firsts.join(" ")), kw.word, "double-dash-keyword");
     }
+    // long members of the argument languages
+    for n in [16usize, 17, 32, 33, 64, 65, 128, 129, 256, 257, 1000] {
+        push(format!("-uid {}5", "0".repeat(n)), "-uid", "member");
+        push(format!("-uid {}4294967296", "0".repeat(n)), "-uid", "corruption");
+        push(format!("-size +{}12k", "0".repeat(n)), "-size", "member");
+        push(format!("-mtime -{}3h", "0".repeat(n)), "-mtime", "member");
+        push(format!("-type {}", vec!["f", "d", "l", "s", "p", "b", "c"].iter().cycle().take(n).cloned().collect::<Vec<_>>().join(",")), "-type", "member");
+        push(format!("-type {},x", vec!["f"; n].join(",")), "-type", "corruption");
+        push(format!("-perm {}", vec!["u+r", "g+w", "o=x", "a+x", "ug=rw"].iter().cycle().take(n).cloned().collect::<Vec<_>>().join(",")), "-perm", "member");
+        push(format!("-perm {},q", vec!["u+r"; n].join(",")), "-perm", "corruption");
+        push(format!("-name {}", "n".repeat(n)), "-name", "member");
+        push(format!("-name '{} {}'", "n".repeat(n), "m".repeat(n)), "-name", "member");
+        push(format!("-xattr-match {} {}", "a".repeat(n), "b".repeat(n)), "-xattr-match", "member");
+        push(format!("-fprintf {} '{}'", "f".repeat(n), "%p ".repeat(n)), "-fprintf", "member");
+        push(format!("-threads {}7", "0".repeat(n)), "-threads", "member");
+    }
     for w in ["foo", "-foo", "-namex", "-not", "-xdev", "-newer", "-delete", "-exec", "--", "-", "-printx", "-print1", "-orx", "-andx", "-ax", "-ox", "x"] {
         for c in contexts(w) {
             push(c, "unknown-word", "unknown-word");
@@ -238,9 +254,31 @@ fn check(case: &Case, acc: &mut Acc) {
     }
 }
 
+/// Every character of the Basic Multilingual Plane as (part of) a bare string argument, and glued
+/// to a number.
+fn every_character() -> Acc {
+    speclib::report::par_cases(0x10000, |cp, acc| {
+        let c = match char::from_u32(cp as u32) {
+            Some(c) if !c.is_control() && !matches!(c, ' ' | '\'' | '"' | '(' | ')' | '!' | ',') => c,
+            _ => return,
+        };
+        if (c as u32) < 0x80 && cp % 1 == 0 && c.is_ascii_alphanumeric() {
+            return;
+        }
+        for (input, kw, family) in [
+            (format!("-name x{c}y -print"), "-name", "member"),
+            (format!("( -iname {c} )"), "-iname", "member"),
+            (format!("-uid 5{c}"), "-uid", "corruption"),
+            (format!("-type f{c}"), "-type", "corruption"),
+        ] {
+            check(&Case { input, kw, family }, acc);
+        }
+    })
+}
+
 pub fn run(ctx: &Ctx) -> i32 {
     let cases = gen(ctx.tier);
-    let acc = par_items(&cases, check);
+    let acc = par_items(&cases, check).merge(every_character());
     let kws: Vec<&Kw> = VOCAB.iter().collect();
     let mut extra = serde_json::Map::new();
     extra.insert("keywords".into(), json!(kws.len()));
@@ -251,7 +289,7 @@ pub fn run(ctx: &Ctx) -> i32 {
             level: "model_checking",
             exhaustive: true,
             rule: "state = input text built from (keyword, argument member | single-character corruption at every position | missing argument | glued suffix | mangled keyword) x embedding context; each is parsed by the real parser and by the text-level reference; distinct = distinct accepted trees and error texts".into(),
-            bound: format!("all {} vocabulary keywords x all members/corruptions of their argument languages x {} contexts; glue matrix keyword x (every vocabulary word + junk suffixes)", kws.len(), ctx.tier.pick(3, 5)),
+            bound: format!("all {} vocabulary keywords x all members/corruptions of their argument languages x {} contexts; glue matrix keyword x (every vocabulary word + junk suffixes); long members (16..1000 leading zeros / list entries / clauses / characters); every printable character of the Basic Multilingual Plane inside a bare string argument and glued to a numeric / type argument", kws.len(), ctx.tier.pick(3, 5)),
             assumptions: vec![
                 "vocabulary table and argument languages in harness/speclib/src/textspec.rs (from find(1) and the subject's ast.rs doc comments)".into(),
                 "inputs in the unspecified classes of DESIGN.md §2.3 are skipped and counted".into(),
